@@ -299,8 +299,12 @@ class Session:
         k = len(self.objs[side])
         self.objs[side].append(o)
         self.key_of_obj[side][id(o)] = k
-        p = self.get_id_pack(o)
-        p = (str(p[0]), p[1], p[2])
+        try:
+            p = self.get_id_pack(o)
+            p = (str(p[0]), p[1], p[2])
+            hash(p)
+        except Exception:  # noqa  (the code under test cannot key this object: that shows when it is sent, not here)
+            p = ("?no-key", id(type(o)), id(o))
         self.pack_of[side].append(p)
         self.key_of_pack[side][p] = k
         return k
@@ -811,11 +815,17 @@ def extras_inspect_window():
     return c10.extra_same_object_during_inspect()
 
 
+def extras_cache_gc():
+    """the object arrives again while the cyclic GC collects its old proxy (shared with C10)"""
+    import c10
+    return c10.extra_cache_hit_across_gc()
+
+
 def all_extras():
     import c10
     table = (("mutation-through-proxy", extras_mutation), ("obtain-deliver", extras_copy), ("two-hops", extras_chain),
              ("release-overtakes-reference", extras_overtake), ("falsy-objects", extras_falsy),
-             ("same-object-during-inspect", extras_inspect_window))
+             ("same-object-during-inspect", extras_inspect_window), ("cache-hit-across-gc", extras_cache_gc))
     return tuple((name, c10._bounded_extra(name, fn)) for name, fn in table)
 
 
